@@ -8,7 +8,7 @@ COQ = os.path.join(VERIF, "coq")
 OCAML = os.path.join(VERIF, "ocaml")
 CACHE = os.path.join(VERIF, ".cache")
 GOENV = dict(os.environ, GOFLAGS="-mod=mod", GOPROXY="off", GOSUMDB="off", GOTOOLCHAIN="local",
-             GOCACHE=os.path.join(CACHE, "go-build"), CGO_ENABLED=os.environ.get("CGO_ENABLED", "0"))
+             GOCACHE=os.environ.get("VERIF_GOCACHE", os.path.join(CACHE, "go-build")), CGO_ENABLED=os.environ.get("CGO_ENABLED", "0"))
 
 def sh(cmd, cwd=None, env=None, timeout=None, check=False, capture=True):
     """Run a command (list or str); returns (rc, output)."""
